@@ -72,6 +72,22 @@ func c09Constructors() []struct {
 		{"NewOneOfIntSchema", func() schema.Type {
 			return schema.NewOneOfIntSchema[any](map[int64]schema.Object{1: schema.NewObjectSchema("A", p1props())}, "_t", false)
 		}},
+		{"NewObjectSchema(nil property map)", func() schema.Type { return schema.NewObjectSchema("NoProps", nil) }},
+		{"NewObjectSchema(empty property map)", func() schema.Type {
+			return schema.NewObjectSchema("NoProps", map[string]*schema.PropertySchema{})
+		}},
+		{"NewPropertySchema(empty rule lists)", func() schema.Type {
+			return schema.NewObjectSchema("Rules", map[string]*schema.PropertySchema{
+				"a": schema.NewPropertySchema(intS(), nil, false, []string{}, []string{}, []string{}, nil, []string{}),
+				"b": schema.NewPropertySchema(intS(), nil, false, nil, nil, nil, nil, nil)})
+		}},
+		{"NewUnits(nil multipliers)", func() schema.Type {
+			return schema.NewIntSchema(nil, nil, schema.NewUnits(schema.NewUnit("x", "xs", "ex", "exes"), nil))
+		}},
+		{"NewUnits(empty multipliers)", func() schema.Type {
+			return schema.NewIntSchema(nil, nil, schema.NewUnits(schema.NewUnit("x", "xs", "ex", "exes"), map[int64]*schema.UnitDefinition{}))
+		}},
+		{"NewScopeSchema(root only)", func() schema.Type { return schema.NewScopeSchema(schema.NewObjectSchema("OnlyRoot", nil)) }},
 		{"NewUnits(custom)", func() schema.Type {
 			return schema.NewIntSchema(nil, nil, schema.NewUnits(schema.NewUnit("x", "xs", "ex", "exes"), map[int64]*schema.UnitDefinition{12: schema.NewUnit("dz", "dz", "dozen", "dozens")}))
 		}},
@@ -358,6 +374,13 @@ func c09Plugin(c *wk.Ctx, r *wk.Rand, idx int64) {
 		for ei := 0; ei < r.Intn(3); ei++ {
 			eid := fmt.Sprintf("emit%d", ei)
 			emitters[eid] = schema.NewSignalSchema(eid, mkScope(id+".signal_emitters."+eid), nil)
+		}
+		if len(handlers) == 0 && idx%2 == 0 {
+			handlers = nil // nil and empty containers must describe alike
+			c.Count("steps_with_nil_signal_handler_map")
+		}
+		if len(emitters) == 0 && idx%3 == 0 {
+			emitters = nil
 		}
 		steps = append(steps, schema.NewCallableStepWithSignals[any, any](id, in, outs, handlers, emitters, nil, nil,
 			func(context.Context, any, any) (string, any) { return "out0", nil }))
